@@ -13,6 +13,8 @@ func H_C18_builder() {
 	prev := -1
 	for s := 0; s < nseg; s++ {
 		seg := b.NewSegment()
+		segNames := [4]string{"seg0", "seg1", "seg2", "seg3"}
+		seg.rand = vRand(segNames[s]) // scripted tower heights (engine: coins; native replay: recorded coins)
 		sz := vRange("size", s, 0, per)
 		if sz == 0 {
 			vReach("empty-segment")
